@@ -19,6 +19,7 @@ namespace GeographicLib {
 
   void Geohash::Forward(real lat, real lon, int len, string& geohash) {
     using std::isnan;           // Needed for Centos 7, ubuntu 14
+    using std::isinf;
     static const real shift = ldexp(real(1), 45);
     static const real loneps = Math::hd / shift;
     static const real lateps = Math::qd / shift;
@@ -26,7 +27,8 @@ namespace GeographicLib {
       throw GeographicErr("Latitude " + Utility::str(lat)
                           + "d not in [-" + to_string(Math::qd)
                           + "d, " + to_string(Math::qd) + "d]");
-    if (isnan(lat) || isnan(lon)) {
+    // lon = +/-inf is normalized to a nan
+    if (isnan(lat) || isnan(lon) || isinf(lon)) {
       geohash = "invalid";
       return;
     }
